@@ -80,3 +80,12 @@ Proof.
   destruct (negb (Qeq_bool q 0) && negb (Qle_bool (inject_Z 1) q)); [discriminate|].
   exact (FnCall.fn_abs_pure_eq exp2 v r).
 Qed.
+
+Lemma dataframe_row_both (exp2 : Q -> Q) purity v r x :
+  (forall p, use_purity purity = Some p -> (fn_dataframe_row exp2 purity v r x == abs_clonal (exp2 v) r x p)%Q) /\
+  (use_purity purity = None -> (fn_dataframe_row exp2 purity v r x == abs_pure (exp2 v) r)%Q).
+Proof.
+  split.
+  - intros p U. exact (dataframe_row_eq exp2 purity p v r x U).
+  - exact (dataframe_row_pure exp2 purity v r x).
+Qed.
